@@ -4,9 +4,11 @@
   (1-D, 2-D) and `Set_Prefactor`/`Multiply` of the model `Lp.Interp` (src/Numerics.cpp §1, after
   fixes 6f59f09 and ede24b1).  The pure forms `pInteg`, `pLocalExt`, … are the values the
   stateful calls return from every admissible search state (`Lp.C09.step_spec`).
-  Helper lemmas: `LpProofs/C08/Basic.lean`, `LpProofs/C08/Additive.lean`.
+  Helper lemmas: `LpProofs/C08/Basic.lean`, `LpProofs/C08/Additive.lean`, `LpProofs/C08/Curve.lean`
+  (the latter composes C01's segment monotonicity and C09's index theorems with the candidates).
 -/
 import LpProofs.C08.Additive
+import LpProofs.C08.Curve
 import LpProofs.C09
 import Mathlib.Tactic.LinearCombination
 namespace Lp.C08
@@ -88,52 +90,146 @@ theorem integ_antisymm_any (o : Obj) (a b : Rat) (hne : a ≠ b) :
 
 /-! ## [T1] extrema -/
 
-/-- the knot `k` of the candidate range is a member of `knotValues first last` -/
-theorem knot_mem (o : Obj) (first last k : Nat) (h1 : first ≤ k) (h2 : k ≤ last) :
-    o.y k ∈ o.knotValues first last := by
-  unfold Obj.knotValues
-  refine List.mem_map.mpr ⟨k - first, List.mem_range.mpr (by omega), ?_⟩
-  congr 1; omega
-
 /-- `Local_Minimum` is a lower bound of, `Local_Maximum` an upper bound of, every candidate: the two
     end values and the curve value `pref·y_k` at every knot `first ≤ k ≤ last` -/
 theorem localExt_candidates (o : Obj) (v1 v2 fl fr : Rat) (i1 i2 : Nat) :
     extVal o false v1 v2 fl fr i1 i2 ≤ fl ∧ extVal o false v1 v2 fl fr i1 i2 ≤ fr ∧
     fl ≤ extVal o true v1 v2 fl fr i1 i2 ∧ fr ≤ extVal o true v1 v2 fl fr i1 i2 ∧
     ∀ k, (if v1 < o.x 0 ∧ v2 ≥ o.x 0 then i1 else i1 + 1) ≤ k → k ≤ (if v2 > o.x (o.N - 1) ∧ v1 ≤ o.x (o.N - 1) then i2 + 1 else i2) →
-      extVal o false v1 v2 fl fr i1 i2 ≤ o.pref * o.y k ∧ o.pref * o.y k ≤ extVal o true v1 v2 fl fr i1 i2 := by
-  unfold extVal
-  simp only
-  generalize (if v1 < o.x 0 ∧ v2 ≥ o.x 0 then i1 else i1 + 1) = first
-  generalize (if v2 > o.x (o.N - 1) ∧ v1 ≤ o.x (o.N - 1) then i2 + 1 else i2) = last
-  by_cases h : first > last
-  · simp only [h, if_true, Bool.false_eq_true, if_false]
-    exact ⟨rmin_le_left _ _, rmin_le_right _ _, le_rmax_left _ _, le_rmax_right _ _, fun k a b => by omega⟩
-  · simp only [h, if_false, if_true, Bool.false_eq_true]
-    refine ⟨le_trans (rmin_le_left _ _) (le_trans (rmin_le_left _ _) (rmin_le_left _ _)), rmin_le_right _ _,
-      le_trans (le_trans (le_rmax_left _ _) (le_rmax_left _ _)) (le_rmax_left _ _), le_rmax_right _ _, fun k a b => ?_⟩
-    have hm := knot_mem o first last k a b
-    obtain ⟨s1, s2⟩ := scaled_between o.pref _ _ (o.y k) (listMin_le _ 0 _ hm) (le_listMax _ 0 _ hm)
-    constructor
-    · refine le_trans ?_ s1
-      apply le_rmin
-      · exact le_trans (rmin_le_left _ _) (le_trans (rmin_le_left _ _) (rmin_le_right _ _))
-      · exact le_trans (rmin_le_left _ _) (rmin_le_right _ _)
-    · refine le_trans s2 ?_
-      apply rmax_le
-      · exact le_trans (le_trans (le_rmax_right _ _) (le_rmax_left _ _)) (le_rmax_left _ _)
-      · exact le_trans (le_rmax_right _ _) (le_rmax_left _ _)
+      extVal o false v1 v2 fl fr i1 i2 ≤ o.pref * o.y k ∧ o.pref * o.y k ≤ extVal o true v1 v2 fl fr i1 i2 :=
+  extVal_candidates o v1 v2 fl fr i1 i2
 
-/-- `localMin_is_min`, full statement: for limits inside the domain, every value of the curve on
-    `[x1,x2]` lies between `Local_Minimum` and `Local_Maximum`.  It follows from
-    `localExt_candidates` and C01's `interp_monotone_on_segment` / `seg_left` / `seg_right` (each cubic
-    piece is monotone and takes the knot values at its ends); the composition with C01's theorems
-    is not carried out here (`localExt_candidates` is the part that concerns this mechanism; the
-    dense-sampling oracle of the correspondence run checks the composed statement on the code). -/
-def localExt_curve_FULL : Prop :=
-  ∀ (o : Obj), Tbl o → ∀ (v1 v2 v mn mx fv : Rat), o.x 0 ≤ v1 → v1 ≤ v → v ≤ v2 → v2 ≤ o.x (o.N - 1) →
-    pLocalExt o false v1 v2 = .ok mn → pLocalExt o true v1 v2 = .ok mx → pInterp o v = .ok fv →
-    mn ≤ fv ∧ fv ≤ mx
+/-- for ordered limits in the domain both results exist -/
+theorem localExt_defined (o : Obj) (t : Tbl o) (isMax : Bool) (v1 v2 : Rat)
+    (h0 : o.x 0 ≤ v1) (h12 : v1 ≤ v2) (h3 : v2 ≤ o.x (o.N - 1)) : ∃ m, pLocalExt o isMax v1 v2 = .ok m := by
+  obtain ⟨i1, _, l1⟩ := located_of_domain t h0 (le_trans h12 h3)
+  obtain ⟨i2, _, l2⟩ := located_of_domain t (le_trans h0 h12) h3
+  exact ⟨_, pLocalExt_located o isMax h12 l1 l2⟩
+
+/-- `localExt_curve_zone` [limits anywhere `Locate` accepts, i.e. also in the 1 % extrapolation zones]:
+    every value `Interpolate` returns on `[x1,x2]` lies between `Local_Minimum(x1,x2)` and
+    `Local_Maximum(x1,x2)`, for every table the constructor accepts and a prefactor of either sign —
+    provided that, where a limit lies outside the tabulated domain, the edge cubic is monotone between
+    that limit and the end knot (`MonoOn`; inside the domain C01 proves this for every piece, outside
+    it the Steffen limiter guarantees nothing, so it is a hypothesis). -/
+theorem localExt_curve_zone (o : Obj) (t : Tbl o) (v1 v2 v mn mx fv : Rat) (h1 : v1 ≤ v) (h2 : v ≤ v2)
+    (hL : v1 < o.x 0 → MonoOn o 0 v1 (o.x 0)) (hR : o.x (o.N - 1) < v2 → MonoOn o (o.N - 2) (o.x (o.N - 1)) v2)
+    (hmn : pLocalExt o false v1 v2 = .ok mn) (hmx : pLocalExt o true v1 v2 = .ok mx) (hf : pInterp o v = .ok fv) :
+    mn ≤ fv ∧ fv ≤ mx := by
+  obtain ⟨i1, i2, hle, l1, l2, emn⟩ := pLocalExt_inv o false hmn
+  obtain ⟨i1', i2', _, l1', l2', emx⟩ := pLocalExt_inv o true hmx
+  rw [l1] at l1'; rw [l2] at l2'
+  injection l1' with e1; injection l2' with e2
+  subst e1; subst e2
+  obtain ⟨j, lj, efv⟩ := pInterp_inv o hf
+  have := bd_onIdx t ⟨hle, l1, l2, hL, hR⟩ (onIdx_of_located t lj) h1 h2
+  rw [emn, emx, efv]
+  exact this
+
+/-- **`localExt_curve`** (`localMin_is_min`, the full statement): for every table the constructor
+    accepts (`N ≥ 3`, strictly increasing abscissae), every prefactor of either sign and limits
+    `x_0 ≤ x1 ≤ x2 ≤ x_{N-1}`, every value of the curve on `[x1,x2]` — `Interpolate(v)`, i.e.
+    `o.cubicAt j v` with `j` the index `Locate` returns from every search state — lies between
+    `Local_Minimum(x1,x2)` and `Local_Maximum(x1,x2)`.  Composition of C01 `interp_monotone_on_segment`
+    / `interp_reproduces_knots` (each piece is monotone between its knots and takes the tabulated
+    values there), C09 `locate_brackets`/`locate_canonical` (which piece) and `localExt_candidates`. -/
+theorem localExt_curve (o : Obj) (t : Tbl o) (v1 v2 v mn mx fv : Rat)
+    (h0 : o.x 0 ≤ v1) (h1 : v1 ≤ v) (h2 : v ≤ v2) (h3 : v2 ≤ o.x (o.N - 1))
+    (hmn : pLocalExt o false v1 v2 = .ok mn) (hmx : pLocalExt o true v1 v2 = .ok mx) (hf : pInterp o v = .ok fv) :
+    mn ≤ fv ∧ fv ≤ mx :=
+  localExt_curve_zone o t v1 v2 v mn mx fv h1 h2 (fun h => absurd h (not_lt.mpr h0)) (fun h => absurd h (not_lt.mpr h3))
+    hmn hmx hf
+
+/-- the same for either piece adjacent to a knot (`x_j ≤ w ≤ x_{j+1}`, not only the canonical one): the
+    bound does not depend on which of the two admissible indices a search returns at a knot -/
+theorem localExt_curve_piece (o : Obj) (t : Tbl o) (v1 v2 w mn mx : Rat) (j : Nat) (hj : j + 2 ≤ o.N)
+    (hw0 : o.x j ≤ w) (hw1 : w ≤ o.x (j + 1)) (h1 : v1 ≤ w) (h2 : w ≤ v2)
+    (hL : v1 < o.x 0 → MonoOn o 0 v1 (o.x 0)) (hR : o.x (o.N - 1) < v2 → MonoOn o (o.N - 2) (o.x (o.N - 1)) v2)
+    (hmn : pLocalExt o false v1 v2 = .ok mn) (hmx : pLocalExt o true v1 v2 = .ok mx) :
+    mn ≤ o.cubicAt j w ∧ o.cubicAt j w ≤ mx := by
+  obtain ⟨i1, i2, hle, l1, l2, emn⟩ := pLocalExt_inv o false hmn
+  obtain ⟨i1', i2', _, l1', l2', emx⟩ := pLocalExt_inv o true hmx
+  rw [l1] at l1'; rw [l2] at l2'
+  injection l1' with e1; injection l2' with e2
+  subst e1; subst e2
+  have := bd_onIdx t ⟨hle, l1, l2, hL, hR⟩ (j := j) (w := w) ⟨hj, Or.inr hw0, Or.inr hw1⟩ h1 h2
+  rw [emn, emx]
+  exact this
+
+/-- a sufficient condition for the hypothesis of the `_zone` statements: the reported first derivative
+    (`Derivative(·,1)` without the prefactor) does not change sign between the limit and the end knot -/
+theorem monoOn_of_deriv_sign (o : Obj) (j : Nat) (a b : Rat)
+    (h : (∀ u, a ≤ u → u ≤ b → 0 ≤ Lp.C01.cubicD1 o.N o.x o.y j u) ∨ (∀ u, a ≤ u → u ≤ b → Lp.C01.cubicD1 o.N o.x o.y j u ≤ 0)) :
+    MonoOn o j a b := by
+  have key : ∀ u w : Rat, Lp.C01.cubic o.N o.x o.y j w - Lp.C01.cubic o.N o.x o.y j u =
+      (w - u) * (Lp.C01.cubicD1 o.N o.x o.y j u + 4 * Lp.C01.cubicD1 o.N o.x o.y j ((u + w) / 2)
+        + Lp.C01.cubicD1 o.N o.x o.y j w) / 6 := by
+    intro u w
+    unfold Lp.C01.cubic Lp.C01.cubicD1
+    rw [Lp.C01.seg_diff, show (u + w) / 2 - o.x j = (u - o.x j + (w - o.x j)) / 2 by ring]
+    ring
+  rcases h with h | h
+  · refine Or.inl fun u w h0 h1 h2 => ?_
+    have d1 := h u h0 (le_trans h1 h2)
+    have d2 := h ((u + w) / 2) (by linarith) (by linarith)
+    have d3 := h w (le_trans h0 h1) h2
+    have := key u w
+    have := mul_nonneg (sub_nonneg.mpr h1) (by linarith : 0 ≤ Lp.C01.cubicD1 o.N o.x o.y j u
+      + 4 * Lp.C01.cubicD1 o.N o.x o.y j ((u + w) / 2) + Lp.C01.cubicD1 o.N o.x o.y j w)
+    linarith
+  · refine Or.inr fun u w h0 h1 h2 => ?_
+    have d1 := h u h0 (le_trans h1 h2)
+    have d2 := h ((u + w) / 2) (by linarith) (by linarith)
+    have d3 := h w (le_trans h0 h1) h2
+    have := key u w
+    have := mul_nonneg (sub_nonneg.mpr h1) (by linarith : 0 ≤ -(Lp.C01.cubicD1 o.N o.x o.y j u
+      + 4 * Lp.C01.cubicD1 o.N o.x o.y j ((u + w) / 2) + Lp.C01.cubicD1 o.N o.x o.y j w))
+    linarith
+
+/-- **the extrema are attained on `[x1,x2]`**: each result is the value `Interpolate` returns at some
+    abscissa of the interval (a limit, or a knot between the limits) — for all limits `Locate`
+    accepts, without any monotonicity hypothesis -/
+theorem localExt_attained (o : Obj) (t : Tbl o) (isMax : Bool) (v1 v2 m : Rat) (h : pLocalExt o isMax v1 v2 = .ok m) :
+    ∃ w, v1 ≤ w ∧ w ≤ v2 ∧ pInterp o w = .ok m ∧ (w = v1 ∨ w = v2 ∨ ∃ k, k < o.N ∧ w = o.x k) := by
+  obtain ⟨i1, i2, hle, l1, l2, em⟩ := pLocalExt_inv o isMax h
+  rcases extVal_is_candidate o isMax v1 v2 (o.cubicAt i1 v1) (o.cubicAt i2 v2) i1 i2 with e | e | ⟨k, k1, k2, e⟩
+  · exact ⟨v1, le_refl _, hle, by rw [em, e]; exact pInterp_located o l1, Or.inl rfl⟩
+  · exact ⟨v2, hle, le_refl _, by rw [em, e]; exact pInterp_located o l2, Or.inr (Or.inl rfl)⟩
+  · obtain ⟨hk, a, b⟩ := knot_in_limits t l1 l2 k1 k2
+    exact ⟨o.x k, a, b, by rw [em, e]; exact pInterp_knot t hk, Or.inr (Or.inr ⟨k, hk, rfl⟩)⟩
+
+/-! ## [T2] `integ_bounds` -/
+
+/-- limits anywhere `Locate` accepts (monotone edge cubic where a limit lies outside the domain):
+    `Local_Minimum·(x2−x1) ≤ Integrate(x1,x2) ≤ Local_Maximum·(x2−x1)`, across any number of pieces -/
+theorem integ_bounds_zone (o : Obj) (t : Tbl o) (v1 v2 mn mx I : Rat)
+    (hL : v1 < o.x 0 → MonoOn o 0 v1 (o.x 0)) (hR : o.x (o.N - 1) < v2 → MonoOn o (o.N - 2) (o.x (o.N - 1)) v2)
+    (hmn : pLocalExt o false v1 v2 = .ok mn) (hmx : pLocalExt o true v1 v2 = .ok mx) (hI : pInteg o v1 v2 = .ok I) :
+    mn * (v2 - v1) ≤ I ∧ I ≤ mx * (v2 - v1) := by
+  obtain ⟨i1, i2, hle, l1, l2, emn⟩ := pLocalExt_inv o false hmn
+  obtain ⟨i1', i2', _, l1', l2', emx⟩ := pLocalExt_inv o true hmx
+  rw [l1] at l1'; rw [l2] at l2'
+  injection l1' with e1; injection l2' with e2
+  subst e1; subst e2
+  rw [pInteg_located t hle l1 l2] at hI
+  injection hI with hI
+  have hi := located_mono t l1 l2 hle
+  have hb := anti_bounds t mn mx (i2 - i1) i1 v1 v2 hle (onIdx_of_located t l1)
+    (by rw [show i1 + (i2 - i1) = i2 by omega]; exact onIdx_of_located t l2)
+    (fun j w hj a b => by
+      have := bd_onIdx t ⟨hle, l1, l2, hL, hR⟩ hj a b
+      rw [emn, emx]; exact this)
+  rw [show i1 + (i2 - i1) = i2 by omega, hI] at hb
+  exact hb
+
+/-- **`integ_bounds`**: for `x_0 ≤ x1 ≤ x2 ≤ x_{N-1}`,
+    `Local_Minimum(x1,x2)·(x2−x1) ≤ Integrate(x1,x2) ≤ Local_Maximum(x1,x2)·(x2−x1)` — every table,
+    every prefactor, limits any number of pieces apart (`localExt_curve` + Simpson's rule, which is
+    exact on each cubic piece and evaluates it at three abscissae of the piece) -/
+theorem integ_bounds (o : Obj) (t : Tbl o) (v1 v2 mn mx I : Rat) (h0 : o.x 0 ≤ v1) (h3 : v2 ≤ o.x (o.N - 1))
+    (hmn : pLocalExt o false v1 v2 = .ok mn) (hmx : pLocalExt o true v1 v2 = .ok mx) (hI : pInteg o v1 v2 = .ok I) :
+    mn * (v2 - v1) ≤ I ∧ I ≤ mx * (v2 - v1) :=
+  integ_bounds_zone o t v1 v2 mn mx I (fun h => absurd h (not_lt.mpr h0)) (fun h => absurd h (not_lt.mpr h3)) hmn hmx hI
 
 /-- `Global_Minimum ≤ pref·y ≤ Global_Maximum` for every tabulated ordinate, for either sign of the
     prefactor (by C01 every evaluation lies between neighbouring ordinates, hence inside too) -/
@@ -259,5 +355,61 @@ theorem prefactor_scaling_global_2D (o : Obj2) (p : Rat) :
 
 example : Tbl Lp.C09.demo := (Lp.C09.mk_WF _ _ _ _ _ Lp.C09.demo_mk).tbl
 example : (0 : Rat) ∈ Lp.C09.demo.ys.toList := by decide
+
+/-- `localExt_curve`, `localExt_attained`, `integ_bounds` on the table `x = 0..4`, `y = 0,1,0,2,0`: all hypotheses
+    hold for the limits `1/2, 5/2` (three pieces apart); the minimum is the knot value at `x_2` — the knot the
+    code skipped before fix 6f59f09 -/
+example : Lp.C09.demo.x 0 ≤ 1 / 2 ∧ (5 / 2 : Rat) ≤ Lp.C09.demo.x (Lp.C09.demo.N - 1) ∧
+    pLocalExt Lp.C09.demo false (1 / 2) (5 / 2) = .ok 0 ∧ pLocalExt Lp.C09.demo true (1 / 2) (5 / 2) = .ok 1 ∧
+    pInterp Lp.C09.demo (3 / 2) = .ok (1 / 2) ∧ pInteg Lp.C09.demo (1 / 2) (5 / 2) = .ok (55 / 48) := by decide +kernel
+
+example : (0 : Rat) ≤ 1 / 2 ∧ (1 / 2 : Rat) ≤ 1 :=
+  localExt_curve Lp.C09.demo (Lp.C09.mk_WF _ _ _ _ _ Lp.C09.demo_mk).tbl (1 / 2) (5 / 2) (3 / 2) 0 1 (1 / 2)
+    (by decide +kernel) (by decide +kernel) (by decide +kernel) (by decide +kernel) (by decide +kernel)
+    (by decide +kernel) (by decide +kernel)
+
+example : (0 : Rat) * (5 / 2 - 1 / 2) ≤ 55 / 48 ∧ (55 / 48 : Rat) ≤ 1 * (5 / 2 - 1 / 2) :=
+  integ_bounds Lp.C09.demo (Lp.C09.mk_WF _ _ _ _ _ Lp.C09.demo_mk).tbl (1 / 2) (5 / 2) 0 1 (55 / 48)
+    (by decide +kernel) (by decide +kernel) (by decide +kernel) (by decide +kernel) (by decide +kernel)
+
+/-- `localExt_curve_piece` at the knot `w = x_2 = 2` with the non-canonical piece `j = 1` -/
+example : (0 : Rat) ≤ Lp.C09.demo.cubicAt 1 2 ∧ Lp.C09.demo.cubicAt 1 2 ≤ 1 :=
+  localExt_curve_piece Lp.C09.demo (Lp.C09.mk_WF _ _ _ _ _ Lp.C09.demo_mk).tbl (1 / 2) (5 / 2) 2 0 1 1
+    (by decide +kernel) (by decide +kernel) (by decide +kernel) (by decide +kernel) (by decide +kernel)
+    (fun h => absurd h (by decide +kernel)) (fun h => absurd h (by decide +kernel)) (by decide +kernel) (by decide +kernel)
+
+example : ∃ w, (1 / 2 : Rat) ≤ w ∧ w ≤ 5 / 2 ∧ pInterp Lp.C09.demo w = .ok 0 ∧ (w = 1 / 2 ∨ w = 5 / 2 ∨ ∃ k, k < Lp.C09.demo.N ∧ w = Lp.C09.demo.x k) :=
+  localExt_attained Lp.C09.demo (Lp.C09.mk_WF _ _ _ _ _ Lp.C09.demo_mk).tbl false (1 / 2) (5 / 2) 0 (by decide +kernel)
+
+/-- `monoOn_of_deriv_sign`: the reported derivative of the straight-line table is `1` everywhere -/
+example : ∀ u : Rat, -1 / 200 ≤ u → u ≤ lin.x 0 → 0 ≤ Lp.C01.cubicD1 lin.N lin.x lin.y 0 u := fun u _ _ => by
+  have := (Lp.C01.steffen_linear_exact (N := 3) (x := lin.x) (y := lin.y) (by decide) (strictInc_of_tbl lin_tbl) (m := 1) (q := 0)
+    (fun i hi => by
+      rcases i with _ | _ | _ | i
+      · decide +kernel
+      · decide +kernel
+      · decide +kernel
+      · omega) (j := 0) (by decide) u).2.1
+  show 0 ≤ Lp.C01.cubicD1 3 lin.x lin.y 0 u
+  rw [this]; norm_num
+
+/-- the `_zone` statements: straight-line table `x = y = 0,1,2`, prefactor `-2`, both limits in the 1 % zones;
+    the edge cubics are monotone there (`lin_mono`), the results are the two end values -/
+example : (-1 / 200 : Rat) < lin.x 0 ∧ lin.x (lin.N - 1) < (401 / 200 : Rat) ∧
+    MonoOn lin 0 (-1 / 200) (lin.x 0) ∧ MonoOn lin (lin.N - 2) (lin.x (lin.N - 1)) (401 / 200) ∧
+    pLocalExt lin false (-1 / 200) (401 / 200) = .ok (-401 / 100) ∧ pLocalExt lin true (-1 / 200) (401 / 200) = .ok (1 / 100) ∧
+    pInterp lin (-1 / 400) = .ok (1 / 200) ∧ pInteg lin (-1 / 200) (401 / 200) = .ok (-201 / 50) :=
+  ⟨by decide +kernel, by decide +kernel, lin_mono 0 (by decide) _ _, lin_mono 1 (by decide) _ _,
+   by decide +kernel, by decide +kernel, by decide +kernel, by decide +kernel⟩
+
+example : (-401 / 100 : Rat) ≤ 1 / 200 ∧ (1 / 200 : Rat) ≤ 1 / 100 :=
+  localExt_curve_zone lin lin_tbl (-1 / 200) (401 / 200) (-1 / 400) (-401 / 100) (1 / 100) (1 / 200)
+    (by decide +kernel) (by decide +kernel) (fun _ => lin_mono 0 (by decide) _ _) (fun _ => lin_mono 1 (by decide) _ _)
+    (by decide +kernel) (by decide +kernel) (by decide +kernel)
+
+example : (-401 / 100 : Rat) * (401 / 200 - -1 / 200) ≤ -201 / 50 ∧ (-201 / 50 : Rat) ≤ 1 / 100 * (401 / 200 - -1 / 200) :=
+  integ_bounds_zone lin lin_tbl (-1 / 200) (401 / 200) (-401 / 100) (1 / 100) (-201 / 50)
+    (fun _ => lin_mono 0 (by decide) _ _) (fun _ => lin_mono 1 (by decide) _ _)
+    (by decide +kernel) (by decide +kernel) (by decide +kernel)
 
 end Lp.C08
